@@ -13,6 +13,17 @@ Oracle (independent of the model): K and j are built from the case description b
 (rates, A) must satisfy the ODE certificates sum_l A[l,.] = j and K A[l,.] = -rate_l A[l,.], the population is
 conserved without loss channel, parallel/sequential megacomplexes agree with the equivalent general one, and on
 Result datasets c(t) = sum_l A_l exp(-rate_l t), DAS = SAS x A^T, lifetime = 1/rate.
+Extensions: (a) parallel / sequential megacomplexes with zero rates anywhere and equal rates (zero_equal_stream; the
+parallel one against exp(-kt)/n for any rates, the sequential one against exp(Kt)e0 when the rates are distinct, and its
+rates must come in chain order — the consistency condition between KMatrix.rates (eigenvalue order when a rate is zero)
+and the closed-form A-matrix, Lean seq_rates_match_a_matrix_iff); (b) eig_order_probe replays the Lean witness
+seq_megacomplex_solves_counterexample on the real code with scipy.linalg.eig wrapped to list the eigenvalues in reverse
+order, and runs decay / parallel cases under the same wrapper (they must not depend on the order); (c) dataset models with
+several decay megacomplexes sharing one initial-concentration item (multi_result_case): species union and order,
+species_concentration per label, SAS per label, per megacomplex a_matrix / rate / lifetime / species / initial
+concentration / k_matrix and DAS = SAS[:, species of the megacomplex, selected by label] x A^T against the model's
+allSpecies / combinedTerm / dasSel and against the harness' own expm, ODE certificates and
+fitted = sum_m sum_l DAS_m,l exp(-rate_m,l t).
 """
 from __future__ import annotations
 
@@ -41,6 +52,9 @@ REQUIRED_THEOREMS = [
     "driver_general_path_sound", "combine_overrides", "combine_keys_unique",
     "compartments_follow_initial_concentration", "involved_spec", "combineAll_keys_unique",
     "decay_megacomplex_solves", "decay_megacomplex_conserves",
+    "seq_megacomplex_chain_any_rates", "seq_closed_form_rates_iff", "seq_rates_chain_order",
+    "seq_megacomplex_solves_partial", "seq_megacomplex_solves_counterexample", "seq_rates_match_a_matrix_iff",
+    "closed_form_degenerate_iff", "allSpecies_spec", "das_multi_reconstructs", "normalized_included_entry",
 ]
 TRUSTED = [
     "hand-written model lean/GlotaranModel/C04.lean of k_matrix.py, initial_concentration.py, the three decay "
@@ -51,6 +65,8 @@ TRUSTED = [
     "implementation and observed numerically by the harness (|K V - V diag(lambda)| <= 1e-10 |K| |V| cond(V)), not proved",
     "mpmath as evaluator of exp in the model's terms; scipy.linalg.expm and mpmath.expm as the oracle's solver",
     "numba's compilation of calculate_decay_matrix_no_irf (observed through the produced matrix)",
+    "LAPACK returns the eigenvalues of the triangular K of a sequential megacomplex in diagonal (chain) order: hypothesis of "
+    "seq_megacomplex_solves_partial, observed on every sequential case (simple_megacomplex_oracle), not proved",
 ]
 ASSUMPTIONS = [
     "theorems are over the reals (Matrix exponential, Real.exp); floating-point rounding, LAPACK's accuracy and "
@@ -70,8 +86,15 @@ RULE = (
     "megacomplexes with 1..5 compartments.  Every K sparsity pattern for n <= 3 x 6 initial vectors (sampled in quick, "
     "exhaustive in thorough).  Permutation stream: all n! declaration orders of 2..4 compartment schemes must give the same profile per label.  Malformed stream: labels missing from the initial concentration, length mismatches, "
     "empty lists, zero normalisation sum, equal rates.  A subset goes through simulate + optimize and the result "
-    "dataset is checked.  non-trivial = at least two compartments with a transfer or several populated compartments; "
-    "distinct = distinct case description"
+    "dataset is checked.  Zero / equal stream: parallel and sequential megacomplexes with 1..6 compartments whose rates contain "
+    "a zero at the end / start / anywhere, two zeros, two equal rates, equal rates and a zero, all zeros (dyadic or six decades).  "
+    "Reversed-eig stream: decay / parallel cases with scipy.linalg.eig wrapped to reverse the eigenvalue order.  Multi stream: "
+    "2..5 compartments with non-lexicographic labels in one initial-concentration item (zeros allowed, any subset in "
+    "exclude_from_normalize), split over 1..3 decay megacomplexes (chain, parallel, branch, star, with / without loss; sometimes "
+    "sharing a compartment), optionally a parallel / sequential megacomplex with own or shared labels, megacomplex order shuffled; "
+    "plus the enumerated configurations of G.multi_config_specs (6 declaration orders x 4 exclusion sets x 4 splits x megacomplex "
+    "orders = 168; sampled in quick, exhaustive in thorough).  non-trivial = at least two compartments with a transfer or several "
+    "populated compartments; distinct = distinct case description"
 )
 
 _MODEL_CLS = None
@@ -563,6 +586,43 @@ def oracle(ck, spec, obs):
     return True
 
 
+def simple_megacomplex_oracle(ck, spec, obs):
+    """parallel / sequential megacomplexes for ANY rates (zero and equal ones included; independent of the model):
+    parallel: compartment c follows exp(-rate_c t)/n exactly as written in the megacomplex;
+    sequential: the rates handed to the decay kernel / written as rate_<mc> are the chain's rates in chain order — the
+    consistency condition between KMatrix.rates (eigenvalue order when a rate is zero) and the closed-form A-matrix
+    (Lean: seq_rates_match_a_matrix_iff / seq_megacomplex_solves_partial)."""
+    if spec["kind"] == "decay" or obs["error"] or "calc_error" in obs or "parts_error" in obs:
+        return
+    comps, rates = spec["comps"], spec["rates"]
+    if len(rates) != len(comps) or len(set(comps)) != len(comps) or not comps:
+        return
+    case = light(spec)
+    r = np.asarray(rates, dtype=float)
+    times = np.asarray(spec["times"], dtype=float)
+    ck.oracle_evals += 1
+    if spec["kind"] == "par":
+        ck.count("oracle:parallel-analytic" + (":equal-rates" if len(set(rates)) < len(rates) else "") + (":zero-rate" if 0.0 in rates else ""))
+        if obs["labels"] != list(comps):
+            ck.violation("parallel:labels", f"labels {obs['labels']} vs compartments {comps}", case)
+            return
+        if len(times) and np.all(times >= 0):
+            with np.errstate(all="ignore"):
+                want = np.exp(-np.outer(times, r)) / len(comps)
+            if obs["matrix"].shape != want.shape or not np.all(np.isfinite(obs["matrix"])) \
+                    or float(np.max(np.abs(obs["matrix"] - want))) > 1e-9:
+                ck.violation("parallel-ne-exp-over-n" + (":equal-rates" if len(set(rates)) < len(rates) else "") + (":zero-rate" if 0.0 in rates else ""),
+                             "parallel megacomplex: concentration differs from exp(-rate_c t)/n", case)
+        return
+    got = np.asarray(obs["rates"], dtype=float)
+    ck.count("oracle:seq-rate-order" + (":zero-rate" if 0.0 in rates else "") + ("" if obs.get("isseq") else ":eig-path"))
+    sc = max(1e-300, float(np.max(np.abs(r))))
+    if got.shape != r.shape or float(np.max(np.abs(got - r))) > 1e-12 * sc:
+        ck.violation("seq-rates-not-in-chain-order" + (":zero-rate" if 0.0 in rates else ""),
+                     f"sequential megacomplex: KMatrix.rates gives {got.tolist()} but the closed-form A-matrix is ordered along the chain "
+                     f"with rates {r.tolist()} (is_sequential={obs.get('isseq')})", case)
+
+
 def equivalence_oracle(ck, spec, obs):
     """parallel / sequential megacomplex == decay megacomplex with the equivalent K-matrix and initial vector"""
     if spec["kind"] == "decay" or obs["error"] or "calc_error" in obs or "parts_error" in obs:
@@ -609,6 +669,7 @@ def check_case(ck, spec, batch, with_equivalence=True):
     obs = observe(spec)
     before = len(ck.violations) + len(ck.known_hits)
     in_domain = oracle(ck, spec, obs)
+    simple_megacomplex_oracle(ck, spec, obs)
     if with_equivalence:
         equivalence_oracle(ck, spec, obs)
     obs["oracle_failed"] = (len(ck.violations) + len(ck.known_hits)) > before
@@ -619,6 +680,7 @@ def check_case(ck, spec, batch, with_equivalence=True):
     ncomp = len(spec["ic_comps"] if spec["kind"] == "decay" else spec["comps"])
     ck.count(f"n:{ncomp}")
     batch.append((spec, obs, model_lines(spec, obs)))
+    return obs
 
 
 def flush(ck, batch):
@@ -976,6 +1038,362 @@ def malformed_specs(rng):
 
 
 # ------------------------------------------------------------------------------------------
+# zero / equal rates in the parallel and sequential megacomplexes
+# ------------------------------------------------------------------------------------------
+def zero_equal_stream(ck, count, batch):
+    for i in range(count):
+        spec = G.rand_zero_equal_spec(ck.rng, kind=("seq" if i % 2 else "par"))
+        if spec is None:
+            continue
+        distinct = len(set(spec["rates"])) == len(spec["rates"])
+        check_case(ck, spec, batch, with_equivalence=distinct)
+        ck.count("stream:zero-equal")
+        ck.count("zero-equal:" + spec["tag"].split("/")[0] + (":in-domain" if distinct else ":out-of-domain"))
+        if len(batch) >= 150:
+            flush(ck, batch)
+    flush(ck, batch)
+
+
+class reversed_eig:
+    """scipy.linalg.eig as seen by k_matrix.py, returning the same eigen-decomposition with eigenvalues and
+    eigenvector columns in the reverse order (as valid a result as LAPACK's own order)"""
+
+    def __enter__(self):
+        import glotaran.builtin.megacomplexes.decay.k_matrix as km
+        self.km, self.orig = km, km.eig
+        orig = self.orig
+
+        def rev(a, *args, **kw):
+            w, v = orig(a, *args, **kw)
+            return w[::-1].copy(), v[:, ::-1].copy()
+        km.eig = rev
+        return self
+
+    def __exit__(self, *exc):
+        self.km.eig = self.orig
+        return False
+
+
+def eig_order_probe(ck, batch):
+    """Replay of the Lean witness seq_megacomplex_solves_counterexample on the real code: with the eigenvalues listed in
+    another (equally valid) order the sequential megacomplex a ->(1) b ->(0) pairs the rates (0, 1) with its chain-ordered
+    closed-form A-matrix and reports c_a(t) = 1, while the decay and the parallel megacomplex do not depend on the
+    order (general_solves holds for whatever eig returned).  On the unchanged tree LAPACK's order is the chain order
+    (simple_megacomplex_oracle checks it on every sequential case), so this is a dependency, not a failure."""
+    witness = {"kind": "seq", "comps": ["a", "b"], "rates": [1.0, 0.0], "times": [0.0, 1.0, 2.5], "tag": "eig-order-witness", "exact": True}
+    with reversed_eig():
+        obs = observe(witness)
+        lines = model_lines(witness, obs)
+    ck.case(("eig-order-witness", json.dumps(witness, sort_keys=True)), True)
+    ck.count("probe:eig-order-witness")
+    if obs["error"] or "calc_error" in obs or "parts_error" in obs:
+        raise core.HarnessError(f"eig-order witness did not run: {obs.get('error') or obs.get('calc_error') or obs.get('parts_error')}")
+    t = np.asarray(witness["times"])
+    dev = float(np.max(np.abs(obs["matrix"][:, 0] - np.exp(-t))))
+    reproduced = np.allclose(obs["rates"], [0.0, 1.0]) and abs(float(obs["matrix"][1, 0]) - 1.0) < 1e-12 and dev > 0.5
+    _, Kw, jw, _ = G.system_of(witness)
+    right = bool(np.max(np.abs(obs["matrix"] - expm_conc(Kw, jw, t))) < 1e-9)
+    ck.extra["eig_order_witness"] = {"rates_with_reversed_eig": np.asarray(obs["rates"]).tolist(), "c_a(1)": float(obs["matrix"][1, 0]),
+                                     "exp(-1)": float(np.exp(-1.0)), "reproduced": bool(reproduced), "order_independent": right}
+    if reproduced:
+        batch.append((witness, obs, lines))        # the model, given the same order, must produce the same (wrong) numbers
+    elif right:
+        # the code no longer depends on eig's order here (e.g. rates and A-matrix taken from the same path): no API-level
+        # difference with LAPACK's own order, so no verdict; the model's dependency (Lean counter-example) is then stale
+        ck.count("probe:eig-order-witness:code-is-order-independent")
+        ck.diagnostic("sequential megacomplex with a zero rate no longer depends on the eigenvalue order; the model's "
+                      "seq_megacomplex_solves_counterexample describes the earlier code", light(witness))
+    else:
+        ck.disagree("eig-order-witness", "sequential megacomplex, zero last rate, eigenvalues in another order: the real code gives neither the "
+                    f"model's numbers nor exp(Kt)j: rates {np.asarray(obs['rates']).tolist()}, c_a(1) = {float(obs['matrix'][1, 0])!r}", light(witness))
+    # the decay / parallel megacomplexes under the same reversed order: full check (oracle + model) must pass
+    n_inv = 0
+    with reversed_eig():
+        check_case(ck, G.equivalent_decay_spec(witness), batch, with_equivalence=False)
+        tries = 0
+        while n_inv < ck.n(24, 300) and tries < 2000:
+            tries += 1
+            spec = G.rand_simple_spec(ck.rng, "par") if tries % 4 == 0 else G.rand_decay_spec(ck.rng)
+            if spec is None:
+                continue
+            spec = dict(spec)
+            spec["tag"] = "reversed-eig/" + spec["tag"]
+            o = check_case(ck, spec, batch, with_equivalence=False)
+            if "lam" in o:
+                n_inv += 1
+            ck.count("stream:reversed-eig")
+    flush(ck, batch)
+
+
+# ------------------------------------------------------------------------------------------
+# several decay megacomplexes in one dataset model: result variables (DAS / SAS / a_matrix / species)
+# ------------------------------------------------------------------------------------------
+def multi_model_dict(spec, pv):
+    def P(v):
+        pv.append(float(v))
+        return str(len(pv))
+
+    km, megas = {}, {}
+    for m in spec["megas"]:
+        if m["kind"] == "decay":
+            for lab, d in zip(m["km_labels"], m["kms"]):
+                km[lab] = {"matrix": {(to, fr): P(v) for to, fr, v in d}}
+            megas[m["label"]] = {"type": "decay", "k_matrix": list(m["km_labels"])}
+        else:
+            megas[m["label"]] = {"type": "decay-parallel" if m["kind"] == "par" else "decay-sequential",
+                                 "compartments": list(m["comps"]), "rates": [P(v) for v in m["rates"]]}
+    ic = {"compartments": list(spec["ic_comps"]), "parameters": [P(v) for v in spec["ic_params"]],
+          "exclude_from_normalize": list(spec.get("excl", []))}
+    return {"initial_concentration": {"j": ic}, "k_matrix": km, "megacomplex": megas,
+            "dataset": {"d": {"initial_concentration": "j", "megacomplex": [m["label"] for m in spec["megas"]]}}}
+
+
+def multi_result_case(ck, spec, pending, batch):
+    """simulate + optimize (one evaluation) a dataset model with several decay megacomplexes that share one
+    initial-concentration item; check every decay-related result variable.  Returns False if the case was skipped."""
+    import xarray as xr
+    from glotaran.model.item import fill_item
+    from glotaran.optimization.optimize import optimize
+    from glotaran.parameter import Parameters
+    from glotaran.project import Scheme
+    from glotaran.simulation import simulate
+    case = light(spec)
+    rng = ck.rng
+    subs = [G.sub_spec(spec, m) for m in spec["megas"]]
+    obss = [observe(sb) for sb in subs]
+    if any(o["error"] or "parts_error" in o or "calc_error" in o for o in obss):
+        ck.count("multi:skipped:sub-megacomplex-raises")
+        return False
+    systems = [G.system_of(sb) for sb in subs]            # the harness' own (comps, K, j normalised over the whole item, j raw)
+    all_species = []
+    for comps, _, _, _ in systems:
+        for c in comps:
+            if c not in all_species:
+                all_species.append(c)
+    pv = []
+    model = model_cls()(**multi_model_dict(spec, pv))
+    params = Parameters.from_list([[v, {"non-negative": False, "vary": False}] for v in pv])
+    next(iter(params.all())).vary = True
+    times = np.array(sorted(set([0.0] + [float(t) for t in spec["times"]] + [0.3, 0.9, 1.7, 2.9, 4.1, 6.5, 9.0])), dtype=float)
+    gdim = spec.get("global_dimension", "spectral")
+    name = "images" if gdim == "pixel" else "spectra"
+    gaxis = np.arange(1, len(all_species) + 3, dtype=float)
+    sas = np.array([[float(rng.randint(1, 9)) for _ in all_species] for _ in gaxis])
+    clp = xr.DataArray(sas, coords=[(gdim, gaxis), ("clp_label", all_species)])
+    with warnings.catch_warnings():
+        warnings.simplefilter("ignore")
+        data = simulate(model, "d", params, {"time": times, gdim: gaxis}, clp)
+        res = optimize(Scheme(model=model, parameters=params, data={"d": data}, maximum_number_function_evaluations=1),
+                       verbose=False, raise_exception=True)
+    ds = res.data["d"]
+    ck.oracle_evals += 1
+    ck.count("result-multi:megacomplexes=" + str(len(subs)))
+    if spec.get("excl"):
+        ck.count("result-multi:with-exclude_from_normalize")
+    if all_species != sorted(all_species):
+        ck.count("result-multi:non-lexicographic-species-order")
+    if sum(len(sy[0]) for sy in systems) > len(all_species):
+        ck.count("result-multi:shared-species")
+    key = "result-multi:"
+    # ---- species of the dataset: union in first-occurrence order
+    got_species = [str(x) for x in ds.coords["species"].values] if "species" in ds.coords else None
+    if got_species != all_species:
+        ck.violation(key + "species-order", f"species = {got_species}, megacomplex compartments in order of first occurrence {all_species}", case)
+        return True
+    tt = np.asarray(ds.coords["time"].values, dtype=float)
+    conc = np.asarray(ds["species_concentration"].transpose("time", "species").values, dtype=float)
+    # ---- species_concentration: sum over the megacomplexes that have the species of exp(K_m t) j_m
+    want = np.zeros((len(tt), len(all_species)))
+    for comps, K, j, _ in systems:
+        c_m = expm_conc(K, j, tt)
+        for ci, c in enumerate(comps):
+            want[:, all_species.index(c)] += c_m[:, ci]
+    jmax = max(1.0, max(float(np.max(np.abs(sy[2]))) for sy in systems))
+    if conc.shape != want.shape or float(np.max(np.abs(conc - want))) > OTOL * jmax:
+        bad = int(np.argmax(np.max(np.abs(conc - want), axis=0))) if conc.shape == want.shape else 0
+        ck.violation(key + "conc-ne-expm", f"species_concentration of {all_species[bad]!r} != sum over its megacomplexes of exp(K t) j "
+                     f"(j normalised over the whole initial-concentration item; max error {float(np.max(np.abs(conc - want))) if conc.shape == want.shape else 'shape'})", case)
+        return True
+    # ---- species-associated spectra are the clps of the same label
+    sasr = np.asarray(ds[f"species_associated_{name}"].transpose(gdim, "species").values, dtype=float)
+    for si, sp in enumerate(all_species):
+        if not np.array_equal(sasr[:, si], np.asarray(ds.clp.sel(clp_label=sp).values, dtype=float)):
+            ck.violation(key + "sas-ne-clp-of-label", f"species_associated_{name} of {sp!r} is not the clp labelled {sp!r}", case)
+            return True
+    # ---- initial_concentration (dataset wide), by label
+    if "initial_concentration" in ds:
+        ic = ds["initial_concentration"]
+        for sp in all_species:
+            v = float(ic.sel(species=sp).values)
+            if sp in spec["ic_comps"]:
+                w = float(spec["ic_params"][spec["ic_comps"].index(sp)])
+                if not v == w:
+                    ck.violation(key + "initial-concentration-by-label", f"initial_concentration[{sp!r}] = {v!r}, declared {w!r}", case)
+                    return True
+            elif not np.isnan(v):
+                ck.violation(key + "initial-concentration-by-label", f"initial_concentration[{sp!r}] = {v!r} for a species outside the item", case)
+                return True
+    # ---- per megacomplex
+    via_das = np.zeros((len(tt), len(gaxis)))
+    for m, sb, o, (comps, K, j, jraw) in zip(spec["megas"], subs, obss, systems):
+        lab = m["label"]
+        for v in (f"a_matrix_{lab}", f"rate_{lab}", f"lifetime_{lab}", f"species_{lab}", f"k_matrix_{lab}", f"k_matrix_reduced_{lab}",
+                  f"decay_associated_{name}_{lab}", f"initial_concentration_{lab}", f"component_{lab}"):
+            if v not in ds and v not in ds.coords:
+                ck.violation(key + "variable-missing", f"{v} is not written to the result dataset", case)
+                return True
+        A = np.asarray(ds[f"a_matrix_{lab}"].values, dtype=float)
+        rates = np.asarray(ds[f"rate_{lab}"].values, dtype=float)
+        life = np.asarray(ds[f"lifetime_{lab}"].values, dtype=float)
+        sp_m = [str(x) for x in ds[f"species_{lab}"].values]
+        n = len(comps)
+        if sp_m != comps:
+            ck.violation(key + "megacomplex-species", f"species_{lab} = {sp_m}, compartments of the megacomplex {comps}", case)
+            return True
+        if ds[f"a_matrix_{lab}"].dims != (f"component_{lab}", f"species_{lab}") or A.shape != (n, n):
+            ck.violation(key + "a-matrix-dims", f"a_matrix_{lab} dims {ds[f'a_matrix_{lab}'].dims} shape {A.shape}", case)
+            return True
+        # the same numbers as the megacomplex's own methods (tied to the model by judge on the sub-case)
+        if not (np.array_equal(A, o["A"]) and np.array_equal(rates, o["rates"])):
+            ck.violation(key + "a-matrix-or-rates-ne-megacomplex", f"a_matrix_{lab} / rate_{lab} differ from get_a_matrix / k_matrix.rates of the megacomplex", case)
+            return True
+        with np.errstate(all="ignore"):
+            if np.all(rates != 0) and not np.allclose(life * rates, 1.0, rtol=1e-12, atol=0):
+                ck.violation(key + "lifetime-ne-1-over-rate", f"lifetime_{lab} {life.tolist()} rate_{lab} {rates.tolist()}", case)
+        if not np.allclose(np.asarray(ds[f"initial_concentration_{lab}"].values, dtype=float), jraw, rtol=1e-14, atol=0):
+            ck.violation(key + "initial-concentration-coord", f"initial_concentration_{lab} is not the raw initial concentration of {comps}", case)
+            return True
+        Kres = ds[f"k_matrix_{lab}"]
+        if [str(x) for x in Kres.coords[f"to_species_{lab}"].values] != comps or [str(x) for x in Kres.coords[f"from_species_{lab}"].values] != comps \
+                or not np.allclose(np.asarray(Kres.values, dtype=float), K, rtol=1e-12, atol=0):
+            ck.violation(key + "k-matrix", f"k_matrix_{lab} is not the full K of the megacomplex on its compartments", case)
+            return True
+        if not np.array_equal(np.asarray(ds[f"k_matrix_reduced_{lab}"].values, dtype=float), o["reduced"]):
+            ck.violation(key + "k-matrix-reduced", f"k_matrix_reduced_{lab}", case)
+            return True
+        # ODE certificates with the harness' own K and j (normalisation over the whole item, exclude_from_normalize)
+        sc = max(1.0, float(np.max(np.abs(A))))
+        if float(np.max(np.abs(A.sum(axis=0) - j))) > OTOL * max(1.0, float(np.max(np.abs(j)))):
+            ck.violation(key + "a-matrix-colsum-ne-j", f"sum_l a_matrix_{lab}[l, c] = {A.sum(axis=0).tolist()} but j = {j.tolist()} "
+                         "(normalised over the whole initial-concentration item)", case)
+            return True
+        kn = max(1e-300, float(np.max(np.abs(K))))
+        for l in range(n):
+            resid = K @ A[l] + rates[l] * A[l]
+            if float(np.max(np.abs(resid))) > 1e-6 * kn * sc:
+                ck.violation(key + "a-matrix-row-not-eigenvector", f"K a_l != -rate_l a_l for component {l + 1} of {lab}", case)
+                return True
+        das = ds[f"decay_associated_{name}_{lab}"]
+        if das.dims != (gdim, f"component_{lab}"):
+            ck.violation(key + "das-dims", f"DAS dims {das.dims}", case)
+            return True
+        dv = np.asarray(das.values, dtype=float)
+        cols = [all_species.index(c) for c in comps]
+        wantd = sasr[:, cols] @ A.T
+        if float(np.max(np.abs(dv - wantd))) > 1e-9 * max(1.0, float(np.max(np.abs(sasr)))) * sc * n:
+            ck.violation(key + "das-ne-sas-a-t", f"decay_associated_{name}_{lab} != SAS[:, species of {lab}] x A^T (selected by label)", case)
+            return True
+        with np.errstate(all="ignore"):
+            via_das += np.exp(-np.outer(tt, rates)) @ dv.T
+
+        def das_cb(ans, dv=dv, lab=lab):
+            mdas = fr_rows(core.parse_tree(ans[3:])[0])
+            okd, errd = close(dv, mdas, 1e-12, scale=max(1.0, float(np.max(np.abs(dv)))))
+            if not okd:
+                ck.disagree("result-multi-das", f"DAS of {lab} differs from the model's dasSel (err {errd:.2e})", case)
+        if np.all(np.isfinite(sasr)) and np.all(np.isfinite(A)):
+            pending.append((f"dassel {strs(all_species)} {p_rows(sasr)} {strs(comps)} {p_rows(A)}", das_cb))
+        # the megacomplex itself against the model (compartments, j, K, is_sequential, rates, A, concentrations)
+        batch.append((sb, o, model_lines(sb, o)))
+        ck.case(("multi-sub", json.dumps(sb, sort_keys=True)), False)
+    # ---- the data model: fitted = sum_m sum_l DAS_m[:, l] exp(-rate_{m,l} t)   (das_multi_reconstructs + fitted = matrix clp)
+    via_sas = conc @ sasr.T
+    amax = max(1.0, max(float(np.max(np.abs(o["A"]))) for o in obss))
+    scf = max(1.0, float(np.max(np.abs(sasr)))) * amax
+    if float(np.max(np.abs(via_sas - via_das))) > 1e-9 * scf * len(all_species):
+        ck.violation(key + "das-decomposition", "sum over the decay megacomplexes of sum_l DAS_l exp(-rate_l t) != sum_s SAS_s c_s(t)", case)
+        return True
+    mat = np.asarray(ds["matrix"].values, dtype=float)
+    with np.errstate(all="ignore"):
+        well = mat.ndim == 2 and np.all(np.isfinite(mat)) and np.linalg.cond(mat) < 1e6
+    if well:          # a full-rank linear problem (no never-populated species, no identical profiles): the fit is the model
+        ck.count("result-multi:fitted-checked")
+        fitted = np.asarray(ds["fitted_data"].transpose("time", gdim).values, dtype=float)
+        if float(np.max(np.abs(fitted - via_das))) > 1e-8 * max(1.0, float(np.max(np.abs(fitted))), scf):
+            ck.violation(key + "fitted-ne-das-decomposition", "fitted_data != sum over the decay megacomplexes of sum_l DAS_l exp(-rate_l t)", case)
+            return True
+
+    # ---- the model's all_species and combined concentration terms
+    def species_cb(ans):
+        got = [core.dec(x) for x in core.parse_tree(ans[3:])[0]]
+        if got != all_species:
+            ck.disagree("result-multi-species", f"species {all_species} vs model allSpecies {got}", case)
+    pending.append(("allspecies " + lst(strs(sy[0]) for sy in systems), species_cb))
+    eigs = []
+    for sb, o in zip(subs, obss):
+        e, mode = eig_param(sb, o)
+        eigs.append(e)
+    kappas = [float(np.linalg.cond(o["V"])) if "V" in o and o["V"].size else 1.0 for o in obss]
+    if all(e is not None for e in eigs) and all(np.isfinite(kp) and kp < 1e9 for kp in kappas):
+        def multi_cb(ans):
+            if ans in ("degenerate", "nocert") or ans.startswith("err"):
+                ck.count("model:multi-skipped:" + ans[:12])
+                return
+            t = core.parse_tree(ans[3:])
+            if [core.dec(x) for x in t[0]] != all_species:
+                ck.disagree("result-multi-species", f"model allSpecies {[core.dec(x) for x in t[0]]} vs {all_species}", case)
+                return
+            amax = max(1.0, max(float(np.max(np.abs(o["A"]))) for o in obss))
+            tol0 = 1e-11 * max(1.0, max(kappas)) * amax * 10 * len(all_species)
+            for ti, row in enumerate(t[1]):
+                for si, pairs in enumerate(row):
+                    val, mag = eval_term(pairs)
+                    tol = tol0 + 1e-11 * max(mag, 1e-300)
+                    if not abs(conc[ti, si] - val) <= tol:
+                        ck.disagree("result-multi-concentration", f"species_concentration[{ti},{all_species[si]}] = {float(conc[ti, si])!r}, "
+                                    f"model combined term = {val!r} (tol {tol:.1e})", case)
+                        return
+        megas_txt = " ".join(lst([sb["kind"], e, *p_args(sb).split(" ")]) for sb, e in zip(subs, eigs))
+        pending.append((f"multi {rats(tt)} {megas_txt}", multi_cb))
+    return True
+
+
+def multi_stream(ck, pending, batch, corpus_specs=()):
+    specs = list(corpus_specs)
+    cfg = list(G.multi_config_specs())
+    if ck.quick:
+        specs += ck.rng.sample(cfg, 14)
+    else:
+        specs += cfg
+        ck.extra["multi_configurations_exhaustive"] = len(cfg)
+    want, tries = ck.n(22, 300), 0
+    rand = []
+    while len(rand) < want and tries < 10 * want:
+        tries += 1
+        sp = G.rand_multi_spec(ck.rng)
+        if sp is not None:
+            rand.append(sp)
+    for spec in specs + rand:
+        try:
+            done = multi_result_case(ck, spec, pending, batch)
+        except core.HarnessError:
+            raise
+        except Exception as e:
+            if spec["tag"].startswith(("multi-config", "corpus/")):
+                # the enumerated configurations are plain valid models: simulate / optimize / finalize must not raise
+                ck.violation("result-multi:raises:" + type(e).__name__, f"simulate + optimize of a valid multi-megacomplex model raises {e!r}"[:400], light(spec))
+                continue
+            ck.count("result-multi:skipped:" + type(e).__name__)
+            ck.diagnostic("multi result case raised", {"spec": spec, "error": repr(e)[:300]})
+            continue
+        if done:
+            ck.case(("multi", json.dumps(spec, sort_keys=True)), True)
+            ck.count("stream:multi-result")
+            ck.count("tag:" + spec["tag"].split("/")[0] + ("/" + spec["tag"].split("/")[1] if spec["tag"].startswith("multi-config") else ""))
+    flush(ck, batch)
+
+
+# ------------------------------------------------------------------------------------------
 # run / search / replay
 # ------------------------------------------------------------------------------------------
 def gen_case(rng, i):
@@ -1007,14 +1425,14 @@ def reused_result_probe(ck):
     from glotaran.project import Scheme
     from glotaran.simulation import simulate
 
-    def model(kind):
+    def model(kind, n=2):
         return load_model(f"""
 megacomplex:
-  m1: {{type: {kind}, compartments: [s1, s2], rates: [rates.1, rates.2]}}
+  m1: {{type: {kind}, compartments: [{', '.join(f's{i + 1}' for i in range(n))}], rates: [{', '.join(f'rates.{i + 1}' for i in range(n))}]}}
 dataset:
   d1: {{megacomplex: [m1]}}
 """, format_name="yml_str")
-    p = load_parameters("rates:\n  - ['1', 1.0]\n  - ['2', 0.25]\n", format_name="yml_str")
+    p = load_parameters("rates:\n  - ['1', 1.0]\n  - ['2', 0.25]\n  - ['3', 0.0625]\n", format_name="yml_str")
     t = np.linspace(0.0, 8.0, 17)
     g = np.array([1.0, 2.0, 3.0])
     clp = xr.DataArray([[1.0, 2.0], [2.0, 1.0], [1.0, 1.0]], coords=[("spectral", g), ("clp_label", ["s1", "s2"])])
@@ -1030,6 +1448,11 @@ dataset:
         first = fit(m_par, data)
         second = fit(m_seq, first)
         fresh = fit(m_seq, data)
+        try:
+            third = fit(model("decay-sequential", 3), first)
+            third_error = None
+        except Exception as e:          # a repaired guard alone ends here: KeyError on the stale clp_label index
+            third, third_error = None, repr(e)[:200]
     ck.oracle_evals += 1
     ck.count("probe:result-dataset-reused-as-data")
     ck.case(("reused-result", json.dumps(case)), True)
@@ -1043,15 +1466,38 @@ dataset:
                      "result is " + ("the first model's" if stale else "wrong") + f" (max deviation {float(np.abs(got - want).max()):.3g}); "
                      "a fit of the same model on the plain data reports the right one: "
                      f"{bool(np.allclose(np.asarray(fresh.species_concentration.transpose('time', 'species').values), want, rtol=1e-9, atol=1e-12))}", case)
+    # the same with a second model of another size (three compartments): the damage is done before any finalize_data runs
+    case3 = {"probe": "result-dataset-reused-as-data", "first": "decay-parallel [s1, s2]", "second": "decay-sequential [s1, s2, s3]",
+             "rates": [1.0, 0.25, 0.0625]}
+    ck.oracle_evals += 1
+    ck.case(("reused-result-3", json.dumps(case3)), True)
+    k3 = 0.0625
+    c3 = k1 * k2 * (np.exp(-k1 * t) / ((k2 - k1) * (k3 - k1)) + np.exp(-k2 * t) / ((k1 - k2) * (k3 - k2)) + np.exp(-k3 * t) / ((k1 - k3) * (k2 - k3)))
+    want3 = np.concatenate([want, c3[:, None]], axis=1)
+    if third is None:
+        ck.violation("reused-result-dataset-of-other-size-raises", f"a result dataset of a 2-compartment model used as data of a 3-compartment model: {third_error}", case3)
+    else:
+        got3 = np.asarray(third.species_concentration.transpose("time", "species").values, dtype=float)
+        info = {"species_concentration_shape": list(got3.shape), "matrix_shape": list(third.matrix.shape), "clp_labels": [str(x) for x in third.clp_label.values]}
+        ck.extra["reused_result_other_size"] = info
+        if got3.shape != want3.shape or not np.allclose(got3, want3, rtol=1e-9, atol=1e-12):
+            ck.violation("reused-result-dataset-of-other-size-keeps-stale-shape",
+                         "a result dataset of a 2-compartment model used as the data of a 3-compartment sequential model: species_concentration "
+                         f"has shape {list(got3.shape)} instead of {list(want3.shape)}; the result's matrix has shape {info['matrix_shape']} "
+                         f"and clp labels {info['clp_labels']} (cut down to the stale clp_label index)", case3)
 
 
 def run(ck):
     model_cls()
     reused_result_probe(ck)
     batch = []
+    corpus_multi = []
     for c in core.load_corpus(PROP):
-        check_case(ck, c["spec"], batch)
         ck.count("stream:corpus")
+        if c["spec"]["kind"] == "multi":
+            corpus_multi.append(c["spec"])
+            continue
+        check_case(ck, c["spec"], batch)
     flush(ck, batch)
     for s in malformed_specs(ck.rng):
         check_case(ck, s, batch, with_equivalence=False)
@@ -1086,6 +1532,8 @@ def run(ck):
     flush(ck, batch)
     permutation_stream(ck, ck.n(8, 120), batch)
     flush(ck, batch)
+    zero_equal_stream(ck, ck.n(160, 4000), batch)
+    eig_order_probe(ck, batch)
     unit_stream(ck, ck.n(300, 4000))
     # result datasets
     pending = []
@@ -1110,11 +1558,12 @@ def run(ck):
             ck.diagnostic("result case raised", {"spec": spec, "error": repr(e)[:300]})
             continue
         k += 1
+    multi_stream(ck, pending, batch, corpus_multi)
     if pending:
         answers = core.lean_driver(PROP, [l for l, _ in pending])
         for (l, cb), a in zip(pending, answers):
-            if not a.startswith("ok "):
-                raise core.HarnessError(f"model rejected {l[:100]}")
+            if a in ("bad-op", "bad-line") or not (a.startswith("ok ") or l.startswith("multi ")):
+                raise core.HarnessError(f"model rejected {l[:100]}: {a[:60]}")
             cb(a)
 
 
@@ -1135,6 +1584,28 @@ def search(ck):
             oracle(ck, s, observe(s))
             if ck.violations:
                 return
+    for i in range(ck.n(400, 3000)):
+        spec = G.rand_zero_equal_spec(ck.rng)
+        if spec is None:
+            continue
+        obs = observe(spec)
+        oracle(ck, spec, obs)
+        simple_megacomplex_oracle(ck, spec, obs)
+        if ck.violations:
+            return
+    pending, batch = [], []
+    for i in range(ck.n(60, 400)):
+        spec = G.rand_multi_spec(ck.rng)
+        if spec is None:
+            continue
+        try:
+            multi_result_case(ck, spec, pending, batch)
+        except core.HarnessError:
+            raise
+        except Exception:
+            continue
+        if ck.violations:
+            return
 
 
 def replay(ck, case):
@@ -1148,13 +1619,23 @@ def replay(ck, case):
     if "spec" in case:
         specs.append(case["spec"])
     batch = []
+    multi = [s for s in specs if s.get("kind") == "multi"]
+    specs = [s for s in specs if s.get("kind") != "multi"]
     for s in specs:
-        check_case(ck, s, batch)
+        if str(s.get("tag", "")).startswith("reversed-eig/"):
+            with reversed_eig():
+                check_case(ck, s, batch, with_equivalence=False)
+        else:
+            check_case(ck, s, batch)
     flush(ck, batch)
-    if str(case.get("key", "")).startswith("result"):
-        pending = []
+    pending = []
+    if str(case.get("key", "")).startswith("result") and not str(case.get("key", "")).startswith("result-multi"):
         for s in specs:
             result_case(ck, s, pending)
+    for s in multi:
+        multi_result_case(ck, s, pending, batch)
+    flush(ck, batch)
+    if pending:
         answers = core.lean_driver(PROP, [l for l, _ in pending])
         for (l, cb), a in zip(pending, answers):
             cb(a)
